@@ -178,6 +178,8 @@ func IteF32(c bool, a, b float32) float32 {
 	return b
 }
 
+func AbsF32(a float32) float32 { return float32(math.Abs(float64(a))) }
+
 // SameF32 is bit identity up to NaN payload (NaN == NaN, +0 != -0).
 func SameF32(a, b float32) bool {
 	if a != a && b != b {
